@@ -3868,6 +3868,7 @@ sexp sexp_read_raw (sexp ctx, sexp in, sexp *shares) {
 #if SEXP_USE_RATIOS
           if (sexp_ratiop(res)) {
             sexp_negate(sexp_ratio_numerator(res));
+            sexp_ratio_numerator(res) = sexp_bignum_normalize(sexp_ratio_numerator(res));
           } else
 #endif
 #if SEXP_USE_COMPLEX
